@@ -302,6 +302,12 @@ def run(prop):
                         cls = "sem"
                     if cls and cls not in spec["classes"] and "sem" in spec["classes"] and pos and pos[1].startswith("done") and beh != pos and not (beh and beh[1] == "outOfFuel"):
                         cls = "sem"  # any abnormal end of the machine where the AxCut program terminates normally is a behavioural difference
+                    if cls == "wf" and arch == "rv" and "jump table" in (line or "") and R.model_line("typ rvplainnames %s" % s5p) == "OK false":
+                        # the RV validator finds a table's clause labels by string prefix: with names containing
+                        # `_<digit>` (types `T` and `T_1`) it rejects well-formed text (kernel-checked witness
+                        # `C14RV_falseAlarm`); its table test is claimed for plain names only
+                        chk.notes["rv_table_test_skipped_unplain_names"] = chk.notes.get("rv_table_test_skipped_unplain_names", 0) + 1
+                        cls = None
                     if cls == "fault" and pos and pos[1].startswith("stuck"):
                         cls = None
                     if cls and cls in spec["classes"]:
